@@ -1,6 +1,7 @@
 package main
 
 import (
+	"golang.org/x/tools/go/ssa"
 	"encoding/json"
 	"fmt"
 	"os"
@@ -43,7 +44,7 @@ func loadKnown() []KnownFinding {
 func expectedObligations(c *Contract, prop string) []string {
 	var out []string
 	for _, e := range c.Ensures {
-		if hasProp(e.Props, prop) {
+		if hasProp(e.Props, prop) && !e.Assumed {
 			out = append(out, c.Func+":post:"+e.Label)
 		}
 	}
@@ -57,6 +58,62 @@ func contractHasProp(c *Contract, prop string) bool {
 		}
 	}
 	return false
+}
+
+// demandProps collects the properties of call-site demands that arise inside fn: those of every callee that is used
+// through its contract, following the functions that are inlined (no modular/trusted contract) and closures.
+// A function is checked under property P also when such a demand of P arises in it, whether or not its own
+// contract mentions P (otherwise the demand would never be discharged by any check).
+func (E *Engine) demandProps(fn *ssa.Function, seen map[*ssa.Function]bool, out map[string]bool) {
+	if fn == nil || seen[fn] || fn.Blocks == nil {
+		return
+	}
+	seen[fn] = true
+	for _, b := range fn.Blocks {
+		for _, in := range b.Instrs {
+			if mc, ok := in.(*ssa.MakeClosure); ok {
+				if cf, ok := mc.Fn.(*ssa.Function); ok {
+					E.demandProps(cf, seen, out)
+				}
+				continue
+			}
+			ci, ok := in.(ssa.CallInstruction)
+			if !ok {
+				continue
+			}
+			callee := ci.Common().StaticCallee()
+			if callee == nil {
+				continue
+			}
+			if !(isModuleFn(callee) || callee.Parent() != nil && isModuleFn(callee.Parent())) {
+				continue
+			}
+			if c := E.Specs.Contracts[FuncName(callee)]; c != nil && (c.Modular || c.Trusted) {
+				for _, rq := range c.Requires {
+					if rq.CallSiteOnly {
+						for _, p := range rq.Props {
+							out[p] = true
+						}
+					}
+				}
+				continue
+			}
+			E.demandProps(callee, seen, out)
+		}
+	}
+}
+
+func (E *Engine) functionHasProp(name string, c *Contract, prop string) bool {
+	if contractHasProp(c, prop) {
+		return true
+	}
+	fn := E.P.Funcs[name]
+	if fn == nil {
+		return false
+	}
+	out := map[string]bool{}
+	E.demandProps(fn, map[*ssa.Function]bool{}, out)
+	return out[prop]
 }
 
 func runCheck(root string, args []string) int {
@@ -130,7 +187,7 @@ func runCheck(root string, args []string) int {
 	}
 	var names []string
 	for n, c := range E.Specs.Contracts {
-		if contractHasProp(c, prop) && !c.Trusted {
+		if E.functionHasProp(n, c, prop) && !c.Trusted {
 			names = append(names, n)
 		}
 	}
